@@ -1,8 +1,8 @@
 """Owned by the C06 check (harness/c06_determinism.py); put on PYTHONPATH of the meson commands it runs.
 
 Environment model for "directory-listing order": POSIX leaves the order of readdir() unspecified, so a
-program's output must not depend on it.  When C06_READDIR is set (to a seed), os.listdir and os.scandir
-return their entries in a seeded pseudo-random order (os.walk, glob, pathlib.Path.iterdir/glob and shutil
+program's output must not depend on it.  When C06_READDIR is set (to "sorted", "reversed" or a seed),
+os.listdir and os.scandir return their entries sorted, reverse sorted or in a seeded pseudo-random order (os.walk, glob, pathlib.Path.iterdir/glob and shutil
 are built on these two).  Nothing is added, dropped or renamed, only the order changes; nothing in the
 tree under test is modified.  Inactive when C06_READDIR is unset or empty.
 """
@@ -16,14 +16,18 @@ if _seed:
     _real_listdir = os.listdir
     _real_scandir = os.scandir
 
+    _reverse = _seed == 'reversed'
+
     def _key(name):
         if isinstance(name, bytes):
             name = os.fsdecode(name)
+        if _seed in ('sorted', 'reversed'):
+            return name.encode('utf-8', 'surrogateescape')
         return hashlib.sha1((_seed + '\0' + name).encode('utf-8', 'surrogateescape')).digest()
 
     def _listdir(path='.'):
         out = _real_listdir(path)
-        out.sort(key=_key)
+        out.sort(key=_key, reverse=_reverse)
         return out
 
     class _ScandirIterator:
@@ -32,7 +36,7 @@ if _seed:
         def __init__(self, path):
             with _real_scandir(path) as it:
                 entries = list(it)
-            entries.sort(key=lambda e: _key(e.name))
+            entries.sort(key=lambda e: _key(e.name), reverse=_reverse)
             self._entries = iter(entries)
 
         def __iter__(self):
